@@ -107,6 +107,31 @@ MUTANTS = [
     (T, "TEBD.at_times", "            yield self.pt", "        yield self.pt", "expect-fail"),
     (T, "TEBD.at_times", "self.update_to(t, dt=dt, tol=False, order=order, progbar=False)", "self.update_to(t, dt=dt / 2, tol=False, order=order, progbar=False)", "expect-fail"),
     (T, "TEBD.at_times", "self.update_to(t, dt=dt, tol=False, order=order, progbar=False)\n", "yield self.pt\n            self.update_to(t, dt=dt, tol=False, order=order, progbar=False)\n", "expect-fail"),
+    # ---- LocalHam1D.__init__
+    (T, "LocalHam1D.__init__", "for i in range(self.L + int(self.cyclic) - 1):", "for i in range(self.L + int(self.cyclic)):", "expect-fail"),
+    (T, "LocalHam1D.__init__", "for i in range(self.L + int(self.cyclic) - 1):", "for i in range(self.L - 1):", "expect-fail"),
+    (T, "LocalHam1D.__init__", "coo_b = (i + 1) % self.L", "coo_b = i + 1", "expect-fail"),
+    (T, "LocalHam1D.__init__", "if (coo_a, coo_b) not in H2 and (coo_b, coo_a) not in H2:", "if (coo_a, coo_b) not in H2:", "expect-fail"),
+    (T, "LocalHam1D.__init__", "if (coo_a, coo_b) not in H2 and (coo_b, coo_a) not in H2:", "if (coo_b, coo_a) not in H2:", "expect-fail"),
+    (T, "LocalHam1D.__init__", "H2[coo_a, coo_b] = default_H2", "H2[coo_b, coo_a] = default_H2", "expect-fail"),
+    (T, "LocalHam1D.__init__", "super().__init__(H2=H2, H1=H1)", "super().__init__(H2=H2, H1=None)", "expect-fail"),
+    (T, "LocalHam1D.__init__", "coo_a = i\n", "coo_a = i + 1\n", "expect-fail"),
+    (T, "LocalHam1D.__init__", "if (coo_a, coo_b) not in H2 and (coo_b, coo_a) not in H2:", "if True:", "expect-fail"),
+    # ---- LocalHamGen.__init__
+    (G, "LocalHamGen.__init__", "            if coo1 < coo2:\n                continue", "            if coo1 > coo2:\n                continue", "expect-fail"),
+    (G, "LocalHamGen.__init__", "X12 = self._flip_cached(self.terms.pop(where))", "X12 = self.terms.pop(where)", "expect-fail"),
+    (G, "LocalHamGen.__init__", "                self.terms[new_where] = self._add_cached(\n                    self.terms[new_where], X12\n                )",
+     "                self.terms[new_where] = X12", "expect-fail"),
+    (G, "LocalHamGen.__init__", "H_tensored = H_tensoreds[pair.index(site)]", "H_tensored = H_tensoreds[1 - pair.index(site)]", "expect-fail"),
+    (G, "LocalHamGen.__init__", "H_tensored = H_tensoreds[pair.index(site)]", "H_tensored = H_tensoreds[0]", "expect-fail"),
+    (G, "LocalHamGen.__init__", "self._div_cached(H_tensored, num_pairs)", "self._div_cached(H_tensored, 2)", "expect-fail"),
+    (G, "LocalHamGen.__init__", "self._div_cached(H_tensored, num_pairs)", "H_tensored", "expect-fail"),
+    (G, "LocalHamGen.__init__", "self._sites_to_covering_terms[site_b].append(where)", "pass", "expect-fail"),
+    (G, "LocalHamGen.__init__", "                H1s.setdefault(site, default_H1)", "                H1s[site] = default_H1", "expect-fail"),
+    (G, "LocalHamGen.__init__", "            if num_pairs == 0:", "            if num_pairs < 0:", "expect-fail"),
+    (G, "LocalHamGen.__init__", "H_tensoreds = (self._op_id_cached(H), self._id_op_cached(H))", "H_tensoreds = (self._id_op_cached(H), self._op_id_cached(H))", "expect-fail"),
+    (G, "LocalHamGen.__init__", "self.terms = dict(H2)", "self.terms = H2", "expect-fail"),
+    (G, "LocalHamGen.__init__", "            for pair in pairs:\n", "            for pair in pairs[:1]:\n", "expect-fail"),
 ]
 
 
